@@ -83,9 +83,12 @@ func (p *pendingRequests) loadAndDelete(stream int16) Request {
 }
 
 func (p *pendingRequests) closing(err error) {
-	p.pending.Range(func(key, value interface{}) bool {
-		request := value.(Request)
-		request.OnClose(err)
+	p.pending.Range(func(key, _ interface{}) bool {
+		// Take the request out of the pending requests so that it's notified exactly once, either here or by the
+		// sender whose write to the closed connection failed.
+		if request := p.loadAndDelete(key.(int16)); request != nil {
+			request.OnClose(err)
+		}
 		return true
 	})
 }
